@@ -16,6 +16,73 @@ check("C03", "exploration",
       "Trusted: the reference precedence table and expected-tree builders in sqlgen (dialect-dependent operator mixes are always parenthesised); the canonical dumper's two documented normalisations; small-scope hypothesis above the bounds.",
       "DESIGN.md §2.2, §3 C03")
 
+
+check("C04", "exploration",
+      "bounded exhaustive enumeration of lexeme sequences x separator classes against an independent reference lexer",
+      "All ordered pairs of a 195-lexeme catalogue x all separator classes, all triples over a reduced alphabet, every lexeme at both ends of the input, every lexeme next to every hostile byte, all fragment strings up to length 3/4, all unterminated openers: kinds and decoded values, exactly one EOF, exact comment capture, invariance under separators and keyword case, quoted identifiers never re-typed (also through the parser), unterminated literals rejected.",
+      "Trusted: the reference maximal-munch lexer in lexgen (gives no verdict on constructs with two defensible readings); Tokenize and TokenizeContext are both observed.",
+      "DESIGN.md §2.3, §3 C04", engine="engine/common + lexgen")
+check("C05", "exploration",
+      "bounded exhaustive enumeration of layouts with generator-known positions; every token boundary as an error-injection point",
+      "The C04 space plus multi-line layouts; every token, comment and EOF must be 1-based, ordered, inside the input, with exact line everywhere and exact column on ASCII tab-free lines; a rejected byte and a stray ']' inserted at every token boundary of sqlgen statements must be reported at their own position.",
+      "Trusted: position bookkeeping of lexgen.Builder; columns are only asserted where the property asserts them.",
+      "DESIGN.md §2.3, §3 C05", engine="engine/common + lexgen + sqlgen")
+check("C06", "exploration",
+      "bounded exhaustive enumeration of accepted statements x all serialiser option sets; round-trip and idempotence oracle on the real code",
+      "Every accepted statement of the model grammar and every accepted corpus file is serialised by AST.SQL, AST.Format (72 option sets + 2 presets), the CLI SQLFormatter (24), gosqlx.Format (12) and formatter.Format (8); the text must re-parse to an equal tree (up to keyword/operator-word/function/type letter case) and a second pass must return it unchanged.",
+      "Trusted: sqlgen canonical dump; identical serialisations within one family are judged once.",
+      "DESIGN.md §3 C06")
+check("C07", "exploration",
+      "bounded exhaustive enumeration of valid, corrupted, multi-statement and lexically invalid inputs through all 16 entry points; differential oracle",
+      "Every generated statement, every single-token deletion / duplication / replacement of a spread of them, all scripts of <=3 items with stray semicolons, comment placements and lexically invalid inputs go through 16 entry points; acceptance, canonical tree and structured error code must agree with gosqlx.Parse; all batches of length <=3 over 7 items must equal the individual calls and fail at the first failing index.",
+      "Trusted: canonical dump; ParseWithRecovery compared through its first error.",
+      "DESIGN.md §3 C07")
+check("C08", "model_checking",
+      "explicit-state search over all call histories up to depth 4/5 on real Parser / Tokenizer objects, reference configuration model in lock-step, probe-based differential oracle",
+      "All histories over a 14-operation parser alphabet and an 11-operation tokenizer alphabet (parse variants, failures, cancellations, depth-limit input, options, Reset, Release, Put) are executed on a fresh instance; afterwards a probe set whose answers depend on every field of the instance must answer exactly as a new instance with the model's configuration, and after Reset/Put the instance must equal a new one field by field (unexported fields included).",
+      "Trusted: the two-field configuration model (strict, dialect); 'same pointer after Put' stands for the next pool holder.",
+      "DESIGN.md §2.4, §3 C08", engine="engine/common (history enumeration)")
+check("C09", "model_checking",
+      "exhaustive (pooled type x field x release path) obligations by reflection + explicit-state search over parse/hold/release histories up to depth 4/5 with snapshot and pointer-disjointness invariants",
+      "Every pooled type and release path found in pool.go at check time: every field filled, released, re-obtained (pointer identity asserted) and compared with a new object incl. backing arrays; all histories over 20 operations on 6 queries sharing pooled shapes: held trees/tokens/results never change, live trees share no pooled node, no node is put twice or pooled while live.",
+      "Trusted: reflection-based fill; GC disabled inside a history so the pools hand objects back deterministically; the cross-goroutine clause is C10's.",
+      "DESIGN.md §2.4, §3 C09", engine="engine/common (history enumeration)")
+check("C10", "exploration",
+      "stateless model checking of the real code: controlled scheduler at every sync / sync-atomic operation (build-time overlay shims), DFS over all schedules within a preemption bound and all sync.Pool answers within a deviation bound; separate free-running -race pass",
+      "76 small colliding harnesses (metrics recording, pairs of public operations on shared pools, hold-vs-release, first use of lazily built globals) are explored over every interleaving with <=2 (quick) / <=3 (thorough) preemptions and <=1 / <=2 pool deviations (complete for the two-thread metrics harnesses); each call must return what it returns alone, metrics totals must equal a counter/min/max model, no deadlock; the same bodies run free under -race (reported as sampling).",
+      "Trusted: sync shims model Mutex/RWMutex/Once/WaitGroup/Pool by their contracts; atomics are sequentially consistent; plain-memory races between two sync points are only seen by the -race pass.",
+      "DESIGN.md §2.5, §3 C10", engine="engine/sched + engine/shim + tools/overlaygen")
+check("C11", "fault_enumeration",
+      "fault enumeration: a counting context fires at every poll k in [0,P] of every input x entry point, with both error kinds",
+      "For each input (one per poll-site context, plus long token lists; thorough: every expression hole) and each of gosqlx.ParseWithContext, Tokenizer.TokenizeContext, Parser.ParseContext the number of polls P is measured, then the context fires at every k with Canceled and DeadlineExceeded: no value, errors.Is(err, ctxErr), <=2 further polls; a never-firing context gives the context-free result; the instance afterwards answers the C08 probes like a new one.",
+      "Trusted: the library only polls Err() (checked); CountCtx keeps Done()/Deadline() consistent.",
+      "DESIGN.md §2.6, §3 C11", engine="engine/common + checks/c08/probe")
+check("C12", "exploration",
+      "bounded exhaustive enumeration of semicolon-separated scripts over valid and corrupted segments and of token soup; differential oracle against strict parsing",
+      "All scripts of <=3 segments over 6 valid statements + 14 corruptions, <=5/6 over a 5-segment pool, with/without trailing semicolon: recovery terminates, reports an error iff strict parsing fails, returns exactly the strict trees of the well-formed segments in order, one error per malformed segment naming a token inside it; all lexeme sequences of length <=3/4 over 24 lexemes for termination and the iff clause.",
+      "Trusted: a segment is well-formed iff gosqlx.Parse accepts it alone; token counting self-checked at run time.",
+      "DESIGN.md §3 C12")
+check("C14", "exploration",
+      "exhaustive (node type x node-holding field) obligations generated from the current source + bounded exhaustive tree enumeration; reflection reachability vs ast.Inspect",
+      "Every struct type of pkg/sql/ast with a Children method (listed from the source at check time) x every field that can hold a node, populated alone with tagged content, plus every tree of the model grammar and every accepted corpus file: the multiset of nodes ast.Inspect yields must equal the multiset reachable by reflection through exported fields.",
+      "Trusted: node identity by type + canonical dump; all-zero nodes ignored on both sides.",
+      "DESIGN.md §3 C14", engine="engine/common + tools/astreg + sqlgen")
+check("C15", "exploration",
+      "bounded exhaustive enumeration of statements whose generator records every identifier with its role; set-equality oracle",
+      "Every SELECT/DML/MERGE statement of the model grammar: ExtractTables/TablesQualified/Columns/ColumnsQualified/Functions/Metadata must equal the sets of names the generator placed in table / column / function positions, duplicate-free, identical across layouts; a missing name is attributed to the tree position where it is written.",
+      "Trusted: disjoint name families per role; unqualified table variant compared on the last component.",
+      "DESIGN.md §3 C15")
+check("C17", "exploration",
+      "bounded exhaustive enumeration of multi-line texts over a hostile line alphabet through every rewriter and rule; token-preservation, fixed-point and rule-model oracles",
+      "All texts of <=3 (quick) / <=4 (thorough) lines over a 22-fragment line alphabet (multi-line literals and comments containing keywords, blanks and quotes; quoted identifiers spelled like keywords; CRLF) through each auto-fix, the CLI --auto-fix sequence and the LSP formatting action: token sequence and comment texts preserved up to keyword case, second application changes nothing, re-lint is clean, each layout rule reports a line iff the generator's three-valued model says so, locations exist.",
+      "Trusted: the generator's lexical-state model of each rule's documented definition (three-valued: must / must-not / either).",
+      "DESIGN.md §3 C17")
+check("C19", "fault_enumeration",
+      "exhaustive enumeration of CLI scenarios (file sets x flags) with an in-process library oracle + fault enumeration: RLIMIT_FSIZE at every byte offset (short write and kill) and strace fault/kill injection at every system call of the in-place writers",
+      "The gosqlx binary built from the working tree runs in isolated scratch directories over all file-class sets (<=3 files), stdin and inline input, every flag and flag pair of format / validate / lint / parse: exit status iff the library accepts, check-only modes modify nothing, stdout vs -i vs --check consistent, JSON/SARIF well-formed and naming exactly the rejected inputs; for format -i and lint --auto-fix every write-failure point leaves the original or the complete new file.",
+      "Trusted: RLIMIT_FSIZE / ptrace / strace injection semantics of this kernel.",
+      "DESIGN.md §2.6, §3 C19", engine="engine/common + tools/fsize")
+
 NOT_BUILT = "check not built yet (work in progress; see DESIGN.md for the planned model-checking design)"
 man = dict(
     version=1,
